@@ -8,7 +8,7 @@
 (* accepted; the second words with y >= j have relative length             *)
 (* (x_m + u - j)/p1: to 2^-44.                                             *)
 (***************************************************************************)
-EXTENDS Limb14, BtpeTable, H2peTable, PdTable, Integers, Sequences, TLC, Json, IOUtils
+EXTENDS Limb14, BtpeTable, H2peTable, PdTable, MtTable, Integers, Sequences, TLC, Json, IOUtils
 
 Rec == ndJsonDeserialize(IOEnv.TRACE)
 VARIABLE l
@@ -40,6 +40,12 @@ Rule == /\ Ev.res = "Ok"
                                  /\ Ev.e_ok
                                  /\ (a.kp >= 0) => (Near14(Ev.ap, a.ap, tol) /\ (Cmp(a.ap, Pow2(tol)) > 0 => Ev.kp = a.kp))
                                  /\ (a.km >= 0) => (Near14(Ev.am, a.am, tol) /\ (Cmp(a.am, Pow2(tol)) > 0 => Ev.km = a.km))
+             \* Marsaglia-Tsang (Gamma, shape >= 1): for the normal deviate x the value returned is d (1 + c x)^3 and the accepting uniform words
+             \* are a prefix of relative length min(1, exp(x^2/2 + d (1 - v + ln v))) (2^-32 f64 / 2^-14 f32; value: 2^-38 / 2^-16 relative)
+             [] Ev.op = "mt" -> LET a == MTab[Ev.case].xs[Ev.j] IN
+                                /\ Ev.x_ok /\ Ev.accepted_at_zero
+                                /\ Near14(Ev.T, a.frac, IF Ev.ft = "f64" THEN 64 - 32 ELSE 64 - 14)
+                                /\ Cmp(Mul(AbsDiff(Ev.outq, a.outq), Pow2(IF Ev.ft = "f64" THEN 38 ELSE 16)), a.outq) <= 0
              [] OTHER -> FALSE
 
 TInit == l = 1
